@@ -1,0 +1,19 @@
+//go:build verif
+
+package internal
+
+import "sync/atomic"
+
+var verifGateFn atomic.Value // of func(string)
+
+// SetVerifGate installs a function called at the critical points of Post,
+// dispatch and Poll; it may block the calling goroutine (scheduler gate).
+func SetVerifGate(f func(string)) {
+	verifGateFn.Store(f)
+}
+
+func verifGate(point string) {
+	if f, _ := verifGateFn.Load().(func(string)); f != nil {
+		f(point)
+	}
+}
